@@ -20,6 +20,9 @@ var raceFrame = regexp.MustCompile(`(?m)^\s+(github\.com/jcmturner/gokrb5/v8/\S+
 
 var anyFrame = regexp.MustCompile(`(?m)^  (\S+?)\(\)\s*$`)
 
+// RaceInvariant collects (key, detail) invariant failures printed by the free-running pass.
+var RaceInvariant [][]string
+
 // HarnessRaces collects reports where an access is in harness or shim code (shown in evidence notes; to be fixed in /verif).
 var HarnessRaces []string
 
@@ -41,8 +44,12 @@ func RunRace(args ...string) ([]RaceReport, int, error) {
 	cmd.Env = append(os.Environ(), "GORACE=halt_on_error=0 exitcode=0 log_path="+logBase)
 	out, err := cmd.CombinedOutput()
 	runs := 0
+	RaceInvariant = nil
 	for _, l := range strings.Split(string(out), "\n") {
 		fmt.Sscanf(l, "RACE-RUNS %d", &runs)
+		if strings.HasPrefix(l, "RACE-INVARIANT ") {
+			RaceInvariant = append(RaceInvariant, strings.SplitN(strings.TrimPrefix(l, "RACE-INVARIANT "), "\t", 2))
+		}
 	}
 	if err != nil {
 		return nil, runs, fmt.Errorf("race pass failed: %v\n%s", err, out)
